@@ -384,6 +384,44 @@ theorem reported_domains_follow_components (genes : List Gene) (hn : (genes.map 
       ∧ ds.map (·.locus) = m.components.map (·.locus) :=
   report_domains genes hn h R hR holder
 
+/-- 10d. (widens 10b/10c: the hypotheses "the look-up found the domains" and "the constructor
+    accepted them" are discharged)  For genes that all lie on one strand, with distinct names,
+    the whole `add_to_record` step succeeds for EVERY module `generate_domains` reports: the
+    domain look-up finds every component's domain feature in its own gene and the `Module`
+    feature constructor accepts them (at least one domain, one strand); the feature carries the
+    module's flags and type. -/
+theorem add_to_record_total (genes : List Gene) (hn : (genes.map (·.name)).Nodup)
+    (h : ∀ g ∈ genes, InputOK g.domains g.name) (s : Int) (hs : ∀ g ∈ genes, g.strand = s)
+    (out : List GeneResult) (ho : chain genes = .ok out) :
+    ∀ r ∈ out, ∀ m ∈ r.modules, ∃ f, m.report (geneTables genes) r.name = .ok f
+      ∧ f.domains.map (·.locus) = m.components.map (·.locus)
+      ∧ f.complete = m.isComplete ∧ f.starter = m.isStarterModule ∧ f.final = m.isTerminationModule
+      ∧ f.iterative = m.isIterative ∧ f.type = m.featureType :=
+  report_total genes hn h s hs out ho
+
+/-- 11. `Module.start` / `Module.end` of every module of a gene: neither assertion is reachable, the
+    module starts where its first domain starts and ends where its last domain ends — or the one
+    before it, when the module has more than one domain and its terminating domain is a product
+    finalising one (TD / thioesterase, table `endTrimLabels` regenerated from `Module.end`) -/
+theorem module_bounds (ds : List Domain) (name : String) (h : InputOK ds name) (ms : List Module)
+    (hb : build ds name = .ok ms) : ∀ m ∈ ms,
+    (∃ s e, m.startPos = .ok s ∧ m.endPos = .ok e)
+    ∧ m.startPos.toOption = Spec.moduleStart m.components
+    ∧ m.endPos.toOption = Spec.moduleEnd m.components := by
+  obtain ⟨ms', hb', hs, _⟩ := build_spec ds name h.1 h.2
+  rw [hb] at hb'; injection hb' with hb'; subst hb'
+  intro m hm
+  obtain ⟨hS, hne⟩ := hs m hm
+  obtain ⟨a1, s, a2⟩ := startPos_eq m hne
+  obtain ⟨b1, e, b2⟩ := endPos_eq m hS.facts.1 hne
+  exact ⟨⟨s, e, a2, b2⟩, a1, b1⟩
+
+/-- … and of every good non-empty module (merged ones included) -/
+theorem module_bounds_good (m : Module) (hg : Good m) (hne : m.components ≠ []) :
+    m.startPos.toOption = Spec.moduleStart m.components
+    ∧ m.endPos.toOption = Spec.moduleEnd m.components :=
+  ⟨(startPos_eq m hne).1, (endPos_eq m hg.1.facts.1 hne).1⟩
+
 /-- the layout predicate read with indices: position `i` is checked against the components
     before it and after it -/
 theorem layout_by_index (cs : List Comp) : Spec.layout cs = Spec.layoutIdx cs :=
@@ -575,5 +613,12 @@ def gBefore : Gene := ⟨"before", 1, 0, [], false, 0, 2500⟩
 example : (regionGenes (some 2400) [gAfter, gBefore]).map (·.name) = ["before", "after"] := by decide
 example : (regionGenes none [gAfter, gBefore]).map (·.name) = ["after", "before"] := by decide
 example : (reindex (regionGenes (some 2400) [gAfter, gBefore])).map (·.index) = [0, 1] := by decide
+
+
+/-! ### non-vacuity for 11: [KS, AT, ACP, Thioesterase] ends with its ACP, [ACP, Epimerization] with the E -/
+example : Spec.moduleEnd [c "PKS_KS" 0, c "PKS_AT" 10, c "ACP" 20, c "Thioesterase" 30] = some 25
+    ∧ Spec.moduleEnd [c "ACP" 20, c "Epimerization" 30] = some 35
+    ∧ Spec.moduleEnd [c "Thioesterase" 30] = some 35
+    ∧ Spec.moduleStart [c "PKS_KS" 7, c "ACP" 20] = some 7 := by decide
 
 end ASV.C14
